@@ -295,7 +295,9 @@ impl Xot {
     /// assert!(xot.is_removed(text));
     /// ```
     pub fn is_removed(&self, node: Node) -> bool {
-        self.arena()[node.get()].is_removed()
+        // compare the handle's stamp, not just the slot: a slot is reused by
+        // later allocations, and must not make an old handle look alive again
+        node.get().is_removed(self.arena())
     }
 
     /// Get parent node.
